@@ -2,6 +2,7 @@
 package c02
 
 import (
+	"github.com/apache/skywalking-banyandb/banyand/internal/verif/simknobs"
 	"fmt"
 	"testing"
 	"testing/synctest"
@@ -22,6 +23,9 @@ func TestSim(t *testing.T) {
 
 func runVersions(e *simcore.Env, tp *simcore.Tape) {
 	synctest.Test(e.T, func(*testing.T) {
+		knobDesc, knobRestore := simknobs.Draw(tp, "measure")
+		defer knobRestore()
+		e.Event("%s", knobDesc)
 		s := wl.GenMeasureSchema(tp, wl.SchemaOpts{})
 		repo := simmeta.New()
 		s.Install(repo)
